@@ -689,6 +689,11 @@ func (v *vector) doBlock() (*child.Result, error) {
 	}
 	// the index the system writes for this block: round trip and content addressing
 	// (what the index says about the rows is property C03)
+	if len(blk) > 255 {
+		// more entries than a block of rows can have: this is the encoding as a TABLE INDEX uses it (one entry
+		// per block of the table); a row block index (one byte of count) does not exist for it
+		return nil, nil
+	}
 	return v.realBlockIndex(blk), nil
 }
 
